@@ -34,8 +34,10 @@ package main
 import (
 	"encoding/hex"
 	"fmt"
+	"os"
 	"sort"
 	"strings"
+	"time"
 
 	"github.com/golang/protobuf/proto"
 	"github.com/openacid/slim/encode"
@@ -736,6 +738,10 @@ func init() {
 			}
 		}
 
+		t0 := time.Now()
+		phase := func(name string) {
+			fmt.Fprintf(os.Stderr, "C17 phase %s done at %.1fs\n", name, time.Since(t0).Seconds())
+		}
 		// 1. small cases for the model (exact correspondence) from every shape, smallest first
 		trieGen := c17Shape{"triegen", func(r *RNG, n int) []string { return genKeySet(r, r.Intn(KKindCnt), 2) }, 1 << 30}
 		for _, n := range []int{1, 2, 3, 5, 17, 64, 65, 129} {
@@ -743,10 +749,12 @@ func init() {
 				runCase(sh, n, true)
 			}
 		}
+		phase("small")
 		// the generators of the point-query properties (tiny, shared prefixes, nibble level, chains, ...)
 		for i := 0; i < c.N(150, 3000); i++ {
 			runCase(trieGen, 0, true)
 		}
+		phase("triegen")
 		// larger regular sets, so that the model sees the larger ShortSize values
 		for _, n := range c17RegularNs(c.Thorough()) {
 			for _, sh := range shapes {
@@ -755,23 +763,28 @@ func init() {
 				}
 			}
 		}
+		phase("regular")
 		for _, n := range []int{300, 700, 1500, 3000} {
 			for _, sh := range shapes {
 				runCase(sh, n, true)
 			}
 		}
+		phase("medium")
 		// 2. sizes up to the tier limit, implementation only
 		for _, sh := range shapes {
 			for _, n := range c17BigNs(c.Thorough(), bigN) {
 				runCase(sh, n, false)
 			}
+			phase("big:" + sh.name)
 		}
+		phase("big")
 		// random sizes
 		for i := 0; i < c.N(24, 400); i++ {
 			sh := shapes[c.R.Intn(len(shapes))]
 			runCase(sh, 1+c.R.Intn(bigN/4), i%4 == 0)
 		}
 
+		phase("random")
 		out := map[string]interface{}{}
 		for k, s := range stats {
 			if s.Cases > 0 {
